@@ -12,7 +12,7 @@ LEVEL = "model_checking"
 FAMILY = "blacklist"
 
 BASE = dict(MaxQ=1, CanExpire=True, Churn=True, RecheckAtPublish=True, CheckFwd=True, CheckAuthor=True, CheckNewStream=True,
-            CheckPending=True, ApiCloses=True, ApiClears=True, ApiNotifies=True, GraftNeedsStream=True, ApiSkipsIfPresent=False)
+            CheckPending=True, ApiCloses=True, ApiClears=True, ApiNotifies=True, GraftNeedsStream=True, ApiSkipsIfPresent=False, DrainAfterClose=False)
 INVS = ["TypeOK", "P_C16_NoInject", "P_C16_Refuse", "P_C16_Api", "P_C16_ApiQueue"]
 # one mechanism removed -> the predicate that must fail (non-vacuity)
 MUST_FAIL = [("asfound-D13", {"RecheckAtPublish": False}, "P_C16_NoInject"),
@@ -24,6 +24,7 @@ MUST_FAIL = [("asfound-D13", {"RecheckAtPublish": False}, "P_C16_NoInject"),
              ("api-no-clear", {"ApiClears": False}, "P_C16_Api"),
              ("api-no-notify", {"ApiNotifies": False}, "P_C16_Api"),
              ("api-skips-if-present", {"ApiSkipsIfPresent": True}, "P_C16_Api"),
+             ("drain-after-close", {"DrainAfterClose": True, "MaxQ": 2}, "P_C16_Api"),
              ("asfound-D6", {"GraftNeedsStream": False}, "P_C16_Api")]
 
 
@@ -53,7 +54,7 @@ def model_check(ctx):
 
     states = transitions = 0
     mc = {}
-    with cf.ThreadPoolExecutor(max_workers=4) as ex:
+    with cf.ThreadPoolExecutor(max_workers=2) as ex:      # 2 x 2 TLC workers
         for (name, cfg, prop), res in ex.map(one, jobs):
             if prop is None:
                 vlib.require_mc_ok(ctx, res, "MCBlacklist %s" % name)
@@ -82,6 +83,11 @@ def plan_scenarios(ctx, sits):
             k = "never+origin+in-flight: needs a connection that never got an outbound stream and then went away"
             dropped[k] = dropped.get(k, 0) + 1
             continue
+        member = None
+        if s["pos"].startswith("gated-"):
+            # the writer sits in Write with one popped RPC and a backlog is queued; `member` says why the node sends to the peer
+            member = s["pos"][len("gated-"):]
+            s = dict(s, pos="gated")
         if s["pos"] == "gated" and s["how"] == "direct":
             k = "gated+direct: Add alone does not touch outbound traffic"
             dropped[k] = dropped.get(k, 0) + 1
@@ -93,8 +99,20 @@ def plan_scenarios(ctx, sits):
             paths = ["queue"]
             if s["stage"] in ("none", "arrived") and s["how"] != "both":
                 paths.append("direct")
-            for path in paths:
+            # what the backlog consists of / which kind of peer it is: the first kind of each membership is combined with
+            # every stage, the others (urgent content, floodsub peer, direct peer) with an empty pipeline
+            bks = [""]
+            if member == "mesh":
+                bks = ["mesh"] + (["mesh-urgent"] if s["stage"] == "none" else [])
+            elif member == "fanout":
+                bks = ["fanout"]
+            elif member == "topic":
+                bks = ["topic"] + (["flood", "directpeer"] if s["stage"] == "none" else [])
+            for path, bk in [(p_, b_) for p_ in paths for b_ in bks]:
+                if bk and path != "queue":
+                    continue
                 sc = dict(s)
+                sc.update(bk=bk)
                 sc.update(impl=impl, path=path, expire=(impl == "timed" and s["stage"] == "none" and path == "queue" and s["how"] != "both"))
                 out.append(sc)
                 if ctx.thorough and s["stage"] == "sendQ" and s["how"] == "api":
@@ -120,7 +138,7 @@ def validate(ctx, scns_lines):
         return ix, len(lines), res
 
     viols, evals, states = [], 0, 0
-    with cf.ThreadPoolExecutor(max_workers=max(1, min(vlib.NCPU // 2, 6))) as ex:
+    with cf.ThreadPoolExecutor(max_workers=max(1, min(vlib.NCPU // 2, 4))) as ex:
         for ix, n, res in ex.map(one, range(len(chunks))):
             if res.hw is None or res.hw[0] < res.hw[1] or res.hw[1] != n + 1:
                 raise vlib.Inconclusive("trace validation did not reach the end of chunk %d (see %s/tlc.out): %s" %
@@ -154,6 +172,7 @@ def coverage(scns_lines):
     for sc in scns_lines:
         cfg = sc[0]["act"]["cfg"]
         pos, how, by, stage, impl, path = (cfg[k] for k in ("pos", "how", "by", "stage", "impl", "path"))
+
         bl_line = next((k for k, ln in enumerate(sc) if k > 0 and ln["c16"]["bl"]), None)
         if bl_line is None:
             continue
@@ -171,6 +190,21 @@ def coverage(scns_lines):
                     if pos in ("mesh", "fanout", "conn"):
                         inc("both:%s:%s" % (impl, pos))
             how = "api"
+        if pos == "gated":
+            api_line = next((k for k, ln in enumerate(sc) if k > 0 and any(x["how"] == "api" for x in ln["c16"]["bl"])), None)
+            if api_line is not None:
+                e2 = next(x for x in sc[api_line]["c16"]["bl"] if x["how"] == "api")
+                qb = sc[api_line - 1]["st"]["peers"].get("p1", {})
+                steps = [ln for ln in sc[api_line + 1:] if ln["act"].get("x") == "stepwrite"]
+                # BlacklistPeer happened while >= 2 RPCs were queued for the peer (one more popped, its Write blocked), and the
+                # wire / the host's Write calls were observed while the Writes were released one by one
+                if qb.get("q", 0) >= 2 and len(steps) >= 2 and sc[api_line - 1]["c16"]["writes"]["p1"] == e2["wr"]:
+                    bk = cfg.get("bk", "")
+                    urgent_ok = bk != "mesh-urgent" or (qb.get("prio", 0) >= 1 and qb["q"] - qb["prio"] >= 1)
+                    if urgent_ok:
+                        inc("backlog:" + bk)
+                        inc("backlog:writes-after=%d" % (steps[-1]["c16"]["writes"]["p1"] - e2["wr"]))
+                        inc("backlog:frames-after=%d" % sum(len(ln["out"].get("p1", [])) for ln in sc[api_line + 1:]))
         if pos == "mesh" and "p1" in before["st"]["mesh"].get("T1", []):
             inc("pos:mesh")
         if pos == "fanout" and "p1" in before["st"]["fanout"].get("T2", []):
@@ -243,7 +277,8 @@ NEED = ["impl:map", "impl:timed", "how:api", "how:direct", "pos:never", "pos:pen
         "reconnect:first", "reconnect:again", "reconnect:skipped", "refuse:newstream", "refuse:respawn",
         "gated:queued-rpcs-dropped", "api:queue-closed", "expired",
         "both:timed:add-returned-false", "both:map:add-returned-true", "both:timed:mesh", "both:timed:fanout", "both:timed:conn",
-        "both:map:mesh", "both:map:fanout", "both:map:conn"]
+        "both:map:mesh", "both:map:fanout", "both:map:conn",
+        "backlog:mesh", "backlog:mesh-urgent", "backlog:topic", "backlog:flood", "backlog:directpeer", "backlog:fanout"]
 
 
 def run(ctx):
@@ -320,7 +355,7 @@ def run(ctx):
     for sc in scns_lines:
         cfg = sc[0]["act"]["cfg"]
         if any(ln.get("c16", {}).get("bl") for ln in sc[1:]):
-            nontrivial.add(json.dumps({k: cfg[k] for k in ("pos", "how", "by", "stage", "impl", "path")}, sort_keys=True))
+            nontrivial.add(json.dumps({k: cfg[k] for k in ("pos", "how", "by", "stage", "impl", "path", "bk")}, sort_keys=True))
     missing = [n for n in NEED if not hit.get(n)]
     known = vlib.load_findings(ctx.pid)
     fresh = [v for v in ctx.violations if not any(vlib.sig_matches(f, v) for f in known)]
@@ -337,7 +372,7 @@ def run(ctx):
            "samples": samples, "evaluations": evals, "distinct_nontrivial": len(nontrivial),
            "rule": "scenario = one situation emitted by GenBlacklist (position x how x by x stage at the instant of the blacklisting) x blacklist "
                    "implementation x publish path, replayed on a real node; non-trivial = the blacklisting took place and at least one predicate "
-                   "instance was evaluated against it; distinct by (pos, how, by, stage, impl, path); evaluations = predicate instances TLC "
+                   "instance was evaluated against it; distinct by (pos, how, by, stage, impl, path, backlog kind); evaluations = predicate instances TLC "
                    "evaluated on lines with a non-empty blacklist (Deliver/Send/Up events, subscriber deliveries, api and refuse clauses)",
            "exhaustive": bool(ctx.thorough), "situations": len(sits), "scenarios": len(scns), "not_driven": dropped,
            "obligations": hit, "mc": mc, "step_lines": len(lines)}
